@@ -13,7 +13,8 @@ use crate::Cfg;
 
 pub const FLOORS: &[&str] = &[
     "at_ffff:continue", "at_ffff:step", "at_ffff:si", "at_ffff:so", "below_origin:resume",
-    "above_fe00:resume", "parked_on_halt:resume", "ended_by_eof", "bound_checked",
+    "above_fe00:resume", "parked_on_halt:resume", "ended_by_eof", "bound_checked", "executed_at_fdff",
+    "halt_planted_at_breakpoint",
 ];
 
 pub fn run(cfg: &Cfg, col: &mut Collector) {
@@ -61,6 +62,18 @@ fn one_case(seed: u64, i: u64) -> CaseOut {
             1 => Cmd::StepInto(1 + rng.below(5) as u32),
             2 => Cmd::BreakAdd(img.origin().wrapping_add(rng.below(img.words.len() as u64 + 1) as u16)),
             _ => Cmd::Continue,
+        });
+    }
+    if rng.chance(1, 4) {
+        // pause at a run-time breakpoint, plant a HALT under the PC, then try to resume
+        cmds.push(Cmd::BreakAdd(img.origin().wrapping_add(1 + rng.below(img.words.len().max(2) as u64 - 1) as u16)));
+        cmds.push(Cmd::Continue);
+        cmds.push(Cmd::MoveMemLoc(crate::refdbg::Loc::Pc(0), 0xF025));
+        cmds.push(match rng.below(4) {
+            0 => Cmd::Continue,
+            1 => Cmd::Step,
+            2 => Cmd::StepOut,
+            _ => Cmd::StepInto(3),
         });
     }
     cmds.push(Cmd::Continue);
@@ -113,6 +126,12 @@ fn one_case(seed: u64, i: u64) -> CaseOut {
                 out.class("parked_on_halt:resume");
             }
         }
+    }
+    if cmds.iter().any(|c| matches!(c, Cmd::MoveMemLoc(..))) {
+        out.class("halt_planted_at_breakpoint");
+    }
+    if sess.snaps.iter().any(|s| s.pc == 0xFE00 && s.fetches > 0) && matches!(built.ending, Ending::JumpHigh) {
+        out.class("executed_at_fdff");
     }
     if sess.snaps.len() == cmds.len() + 1 {
         out.class("ended_by_eof");
